@@ -177,6 +177,7 @@ func ZZ_C20_DriverTerminates(sv *zzsv.T) {
 	cmd := sv.Choice("subcommand", 4)
 	sv.StdoutStart()
 	rc := -1
+	sv.MustTerminate("C20.driver.terminates", 10)
 	ok := zzNoPanic(func() {
 		switch cmd {
 		case 0:
